@@ -262,6 +262,10 @@ func calculateBackoff(endpoint *domain.Endpoint, success bool) (time.Duration, i
 	// Only apply backoff on subsequent failures
 	if endpoint.BackoffMultiplier <= 1 {
 		// First failure - use normal interval but set multiplier to 2 for next time
+		// (a failing endpoint is never left alone for longer than the backoff cap)
+		if endpoint.CheckInterval > MaxBackoffSeconds {
+			return MaxBackoffSeconds, 2
+		}
 		return endpoint.CheckInterval, 2
 	}
 
